@@ -198,6 +198,33 @@ def run(ctx):
                        "gap stays without a header and the file cannot be scanned on reopen" % (common.norm(fb.npath), consts),
                        fb.loc(i_sw), key="%s|R04d|%s|left-over-header-guard" % (ctx.pid, common.norm(fb.npath)))
     ctx.floor("R04d", "guards of left-over free headers", n_left, 3)
+    # ... and every region taken out of the free list is handled that way: each call of a StorageRecords method that
+    # removes a free region and hands its position out (take_free, take_free_after, any new sibling) reaches, on its
+    # Some edge, the free_a_region call for the left-over.  A taker that reports no size cannot be used correctly.
+    takers = {}
+    for tb in fa.find(r"^agdb::storage::storage_records::StorageRecords::"):
+        if "Option<" in (tb.d.get("ret") or tb.local_ty(0)) and any(cfg.callee(t) == REC + "remove_free" for i, t in cfg.calls(tb)):
+            takers[common.norm(tb.npath)] = tb
+    n_take = 0
+    for fb in sorted(fa.find(r"^agdb::storage::Storage::"), key=lambda x: x.npath):
+        k = 0
+        for i, t in cfg.calls(fb):
+            nm = common.norm(cfg.callee(t) or "")
+            if nm not in takers:
+                continue
+            n_take += 1
+            k += 1
+            fr = common.call_blocks_reaching(fa, fb, [S + "free_a_region"]) if hasattr(common, "call_blocks_reaching") else \
+                cfg.call_blocks(fb, [S + "free_a_region"])
+            edges = [te["ok_edge"] for te in cfg.result_edges(fb, [t["d"][0]]) if te.get("ok_edge")]
+            ok = bool(edges) and bool(fr) and any(cfg.find_path(fb, [e[1]], fr) is not None for e in edges)
+            ctx.ob("R04d", "%s:%s#%d:left-over-gets-a-header" % (common.norm(fb.npath), nm.split("::")[-1], k), ok,
+                   "the region taken by %s is followed by free_a_region for its left-over" % nm.split("::")[-1] if ok else
+                   "`%s` takes a region out of the free list with `%s` but no path from there writes a free header for the "
+                   "part the new value does not use: stray bytes stay between (or behind) the records and the header chain "
+                   "cannot be scanned when the file is opened after a crash" % (common.norm(fb.npath), nm.split("::")[-1]),
+                   fb.loc(i), key="%s|R04d|%s|%s-left-over" % (ctx.pid, common.norm(fb.npath), nm.split("::")[-1]))
+    ctx.floor("R04d", "calls that take a region out of the free list", n_take, 3)
 
     optimize_rule(ctx)
     truncate_rule(ctx)
